@@ -151,6 +151,7 @@ func registerGlobalUUID(fd *FileDescriptor, uuid string) {
 	}
 	for _, c := range fd.Consts {
 		addExtraToDescriptor(uuid, c)
+		addExtraToTypeDescriptor(uuid, c.Type)
 		addExtraToDescriptor(uuid, c.Value)
 	}
 }
